@@ -512,6 +512,55 @@ ATruncStat(i, what) ==
                         m2 |-> MkSeq(R, LAMBDA r : TrMoment0(t, r, 2))]))
 
 \* ------------------------------------------------------------------------
+\* Sampling (C19).  Densities for this purpose are built from a lower-triangular factor L with positive
+\* rational diagonal, Sigma := L L', so that the Cholesky factor of Sigma is known exactly (it is L).
+\* sample(key, n)[s][r] = mu_r + L_r z[s][r], where z = the key's standard normal stream of shape (n, R, D).
+\* ------------------------------------------------------------------------
+LMENU(d) ==
+    CASE d = 1 -> << Q(<<<<2>>>>, 1), Q(<<<<1>>>>, 2), Q(<<<<3>>>>, 2) >>
+      [] d = 2 -> << Q(<< <<1, 0>>, <<2, 1>> >>, 1), Q(<< <<4, 0>>, <<-6, 1>> >>, 2), Q(<< <<1, 0>>, <<3, 2>> >>, 3) >>
+      [] d = 3 -> << Q(<< <<1, 0, 0>>, <<1, 2, 0>>, <<-2, 1, 1>> >>, 1), Q(<< <<2, 0, 0>>, <<-3, 1, 0>>, <<1, 4, 2>> >>, 2),
+                     Q(<< <<3, 0, 0>>, <<0, 1, 0>>, <<2, -2, 1>> >>, 3) >>
+
+\* exact Sigma = L L' as a menu record (plain integer arithmetic)
+RECURSIVE ISum(_, _)
+ISum(f, k) == IF k = 0 THEN 0 ELSE f[k] + ISum(f, k - 1)
+LLt(q) == LET d == Len(q.n) IN
+          Q([a \in 1..d |-> [b \in 1..d |-> ISum([c \in 1..d |-> q.n[a][c] * q.n[b][c]], d)]], q.d * q.d)
+
+ANewPdfChol(d, R, s) ==
+    LET qL == Pick(LMENU(d), R, s)
+        qS == MkSeq(R, LAMBDA i : LLt(qL[i]))
+        qm == Pick(VEC(d), R, s)
+        o  == NewPdf(MkSeq(R, LAMBDA i : QM(qS[i])), MkSeq(R, LAMBDA i : QV(qm[i])))
+    IN Emit(Append(heap, o),
+            Step("NewPdf", [cls |-> "PDF", mode |-> "S", Sigma |-> qS, mu |-> qm, chol |-> qL], NoObj,
+                 NextId, ExpectObj(o), 0, NoObj, NoObj))
+
+CholOf(i) == LET st == CHOOSE h \in {hist[k] : k \in 1..Len(hist)} : h.id = i IN st.a.chol
+
+\* integer stream z[s][r][c]; zmode "int": a fixed pattern, "onehot": a single 1 at position (s0, r0, c0)
+ZStream(n, R, d, zmode, s0, r0, c0) ==
+    [s \in 1..n |-> [r \in 1..R |-> [c \in 1..d |->
+        IF zmode = "int" THEN ((3 * s + 5 * r + 7 * c + s * r) % 5) - 2
+        ELSE IF s = s0 /\ r = r0 /\ c = c0 THEN 1 ELSE 0]]]
+
+\* mode "stream": jax.random.normal is replaced (in the harness) by the given integer stream z;
+\* mode "key": the real generator with PRNGKey(seed); the harness draws the stream itself and uses L, mu
+ASample(i, n, mode, zmode, s0, r0, c0, seed) ==
+    LET p == heap[i] R == NumR(p) d == NumD(p)
+        qL == CholOf(i)
+        L == MkSeq(R, LAMBDA r : QM(qL[r]))
+        z == ZStream(n, R, d, zmode, s0, r0, c0)
+    IN /\ IsPdf(p)
+       /\ Emit(heap, Step("Sample", [i |-> i, n |-> n, mode |-> mode, z |-> IF mode = "stream" THEN z ELSE <<>>, seed |-> seed],
+                          NoObj, 0, NoObj, 0, NoObj,
+                          [L |-> L, mu |-> p.mu,
+                           x |-> IF mode = "stream"
+                                 THEN MkSeq(n, LAMBDA s : MkSeq(R, LAMBDA r :
+                                          VAdd(p.mu[r], MatVec(L[r], MkVec(d, LAMBDA c : FI(z[s][r][c])))))) ELSE <<>>]))
+
+\* ------------------------------------------------------------------------
 \* Properties that are meaningful in every state of every instance
 \* ------------------------------------------------------------------------
 \* C04: every populated cache of every live object equals the value derived
@@ -761,6 +810,14 @@ Inv_TruncAdditive ==
                             LET f == Form(<<1>>, 0) m == <<mu>> S == <<<<FMul(sg, sg)>>>> IN
                             CASE k = 0 -> 1 [] k = 1 -> Mom1(f, m, S) [] k = 2 -> Mom2(f, f, m, S)
                               [] k = 3 -> Mom3(f, f, f, m, S) [] k = 4 -> Mom4(f, f, f, f, m, S))
+
+\* C19: the factor paired with component r reproduces that component's covariance: L_r L_r' = Sigma_r
+Inv_Sample ==
+    IsAct("Sample") =>
+      LET p == heap[Last.a.i] qL == CholOf(Last.a.i) IN
+      \A r \in 1..NumR(p) : LET L == QM(qL[r]) IN
+          /\ MEq(MatMulT(L, L), Truth(p, r).Sig)
+          /\ \A a \in 1..NumD(p) : \A b \in 1..NumD(p) : a < b => L[a][b] = 0      \* lower triangular
 
 \* the exporter: print the behaviour once it is complete (Done is defined by the MC module)
 Export(done) == done => PrintT(ToJson(hist))
